@@ -11,13 +11,14 @@ LEVEL = "exploration"
 RULE = ("scenario = run_forever(ping_interval=i, ping_timeout=t, ping_payload=p) on the grid i in {1,2,3,5,8,20} s x t in "
         "{None,1/2,1,2,4,7} s plus refused pairs (t<=0, i<0, i<=t); peer pong policy: latency pattern per ping (constant, "
         "jittered, bursty) strictly below 0.9 t (responsive stratum) or 'stops answering after the k-th ping' (silent "
-        "stratum); concurrent server data traffic (none / steady / bursts timed to collide with ping and timeout "
-        "instants); seeded schedules incl. line-level pre-emption between ping thread and loop.  Oracle from the peer's "
+        "stratum, optionally after the first bytes of a frame whose rest never arrives); concurrent server traffic (none / "
+        "steady / bursts timed to collide with ping and timeout instants / pong frames nobody asked for at offsets around "
+        "and after the timeout); seeded schedules incl. line-level pre-emption between ping thread and loop.  Oracle from the peer's "
         "log and the callback trace: pings carry p, consecutive pings are i apart, the first no later than 2 i after the "
         "connection is up, none after the run has ended; silent: on_error(WebSocketTimeoutException 'ping/pong timed "
         "out') no later than P + 2 t (P = arrival of the first unanswered ping); responsive: no timeout ever reported; "
         "refused pairs raise WebSocketException with zero network activity.  Enumerated completely: the accepted grid x "
-        "{responsive, silent after 0/1/3 pongs} x {no traffic, steady}; every refused pair.  non-trivial = a ping was "
+        "{responsive, silent after 0/1/3 pongs} x {no traffic, steady, unsolicited pongs, silent in the middle of a frame}; every refused pair.  non-trivial = a ping was "
         "sent; distinct = (i, t, stratum, latency pattern, traffic pattern, schedule digest)")
 ASSUMPTIONS = ["a pre-empted thread may additionally be held up for <= 1/32 s of virtual time ('slow thread' fault); latencies stay below 0.9 t",
                "every timed wait overshoots by one tick (15 us); bounds carry a slack of 1/16 s for that",
@@ -65,6 +66,15 @@ def expand(item, seed):
                         if stratum != "responsive":
                             sc["pong"]["stop_after"] = stratum
                         yield sc
+                        if traffic == "none" and t is not None:
+                            if stratum == "responsive":
+                                # pong frames nobody asked for, more than t after each ping
+                                offs = [o for o in (int(t * S) + S // 8, int(t * S * 1.5)) if o < int(i * S)]
+                                if offs:
+                                    yield dict(sc, traffic={"mode": "pongs", "offsets": offs})
+                            else:
+                                # the peer falls silent in the middle of a frame
+                                yield dict(sc, pong=dict(sc["pong"], partial="8105"))
                         if traffic == "none" and i in (1, 3, 8):
                             yield dict(sc, second_conn="second_run")
                             if stratum == "responsive":
@@ -99,9 +109,16 @@ def gen(rng):
         pong["lats"] = [rng.randrange(0, max(1, lim)) for _ in range(rng.randrange(2, 6))]
     if tt is not None and rng.random() < 0.5:
         pong["stop_after"] = rng.choice((0, 1, 2, 3))
+        if rng.random() < 0.2:
+            pong["partial"] = rng.choice(("81", "8105", "810568", "0102aa", "8a", "8905", "827e"))
     sc["pong"] = pong
-    mode = rng.choice(("none", "steady", "collide", "collide"))
+    mode = rng.choice(("none", "steady", "collide", "collide", "pongs") if tt is not None else ("none", "steady", "collide", "collide"))
     tr = {"mode": mode}
+    if mode == "pongs":
+        # unsolicited pong frames at offsets after each ping instant (before, around and well after the timeout)
+        tr["offsets"] = sorted(set(rng.choice((S // 8, tt // 2, tt - 1, tt, tt + 1, tt + S // 8, tt + tt // 2, it - S // 8, it // 2))
+                                   for _ in range(rng.randrange(1, 4))))
+        tr["offsets"] = [o for o in tr["offsets"] if 0 < o < it] or [S // 8]
     if mode == "steady":
         tr["period"] = rng.choice((S // 4, S // 2 + 7, S, 3 * S + 1))
     elif mode == "collide":
@@ -147,8 +164,15 @@ def run(sc, choices=None):
             lats = [int(x) for x in (pong.get("lats") or [pong.get("lat", 0)])]
             if any(x < 0 or x >= lim for x in lats):
                 raise InvalidScenario("latency not strictly below 0.9 t")
-            if traffic.get("mode") not in ("none", "steady", "collide"):
+            if traffic.get("mode") not in ("none", "steady", "collide", "pongs"):
                 raise InvalidScenario("traffic")
+            if traffic.get("mode") == "pongs" and (tt is None or not traffic.get("offsets") or any(not 0 < int(o) < it for o in traffic["offsets"])):
+                raise InvalidScenario("pong offsets")
+            if pong.get("partial") is not None:
+                part = bytes.fromhex(pong["partial"])
+                if pong.get("stop_after") is None or tt is None or not part or R.decode_one(part, 0) is not None or (part[0] & 0x70) \
+                        or (len(part) > 1 and part[1] & 0x80) or traffic.get("mode") != "none" and False:
+                    raise InvalidScenario("partial")
     except (KeyError, TypeError, ValueError) as e:
         raise InvalidScenario(str(e))
     silent = pong.get("stop_after") is not None and tt is not None
@@ -165,6 +189,18 @@ def run(sc, choices=None):
             for x in traffic.get("instants", ()):
                 if 0 < int(x) < horizon:
                     script.append({"t": int(x), "hex": R.encode_frame(1, 1, b"c").hex(), "unless_closed": True})
+        elif traffic.get("mode") == "pongs":
+            # (a peer that has fallen silent sends no pongs at all any more, asked for or not)
+            stop = (int(pong["stop_after"]) + 2) * it - 1 if silent else horizon
+            for k in range(2, npings + 3):
+                for o in traffic["offsets"]:
+                    if k * it + int(o) < min(horizon, stop):
+                        script.append({"t": k * it + int(o), "hex": R.encode_frame(1, 10, b"unasked").hex(), "unless_closed": True})
+        if silent and pong.get("partial"):
+            # shortly before the first ping that stays unanswered the first bytes of a frame arrive; the rest never does
+            tp = (int(pong["stop_after"]) + 2) * it - S // 4
+            script = [x for x in script if x["t"] < tp]
+            script.append({"t": tp, "hex": pong["partial"]})
         if not silent:
             script.append({"t": horizon, "hex": R.encode_frame(1, 8, b"\x03\xe8").hex()})
         script.sort(key=lambda d: d["t"])
@@ -205,7 +241,9 @@ def run(sc, choices=None):
     i_s, t_s = it / S, (None if tt is None else tt / S)
     ratio = "no_timeout" if tt is None else ("interval<=2*timeout" if it <= 2 * tt else "interval>2*timeout")
     stratum = "refused" if refused else ("silent" if silent else "responsive")
-    ctx = f"{stratum}/{ratio}"  # (the judged connection may be a re-established one or belong to a second run: see detail)
+    ctx = f"{stratum}/{ratio}"
+    if silent and pong.get("partial"):
+        ctx = "silent_midframe"  # (the judged connection may be a re-established one or belong to a second run: see detail)
     if refused:
         ok = run_.exc is not None and isinstance(run_.exc, w.ws.WebSocketException)
         if not ok:
